@@ -104,6 +104,10 @@ func c11Op(t *sim.Tape, a *viewActor, uniq string) fsx.Op {
 	switch o.K {
 	case "Rename", "Link":
 		o.P, o.Q = path(), path()
+
+		if o.K == "Rename" && t.Chance(80) {
+			o.Q = []string{"/", "/d/..", "."}[t.Int(3)] // the root of the view as new name
+		}
 	case "WriteFile":
 		o.P, o.Data, o.Perm = path(), uniq, []uint32{0o666, 0o640}[t.Int(2)]
 	case "Mkdir", "MkdirAll":
@@ -213,7 +217,11 @@ func (p C11) Run(c *sim.Ctx, t *sim.Tape) sim.RunResult {
 		// move the directory of a view (or one of its ancestors) is replaced by a query.
 		if o.K == "Remove" || o.K == "RemoveAll" || o.K == "Rename" {
 			for _, x := range actors {
-				for _, pth := range []string{a.toTwin(o.P), a.toTwin(o.Q)} {
+				for k, pth := range []string{a.toTwin(o.P), a.toTwin(o.Q)} {
+					if k == 1 && o.K == "Rename" && pth == x.root {
+						continue // a directory is never replaced: renaming onto the directory of a view fails and moves nothing
+					}
+
 					if pth != "" && x.root != "" && (x.root == pth || strings.HasPrefix(x.root, strings.TrimSuffix(pth, "/")+"/")) {
 						o = fsx.Op{K: "Stat", P: o.P}
 					}
